@@ -210,7 +210,7 @@ PROPS = {
     },
     "C08": {
         "chain": [chain("reg", 24, 25, 300, 40), chain("all", 16, 25, 200, 40), chain("authz", 8, 20, 100, 30), chain("gov", 8, 20, 100, 30)],
-        "corpus": ["witness", "regress"],
+        "corpus": ["witness", "regress", "large"],
         "relevant": rel_kinds(REG_TAGS, is_reg),
         "level_text": "Proof: in every reachable state BEACON retains exactly the contiguous newest ids first..last with num = last-first+1 <= limit (c08_bcn_retained_is_newest), WRKChain retains a strictly increasing key list whose length, head and bound are the reported counters (c08_wrk_counters_match_store); each accepted record prunes exactly the oldest when full (c08_*_prune_one_at_a_time); the limit starts at the default, changes only by an owner's purchase, by exactly n, never above max (c08_purchase_raises_by_exactly_n, c08_limit_changes_only_by_purchase); remaining capacity = max(0,max-limit).",
         "level_note": REG_NOTE + " The two genuine defects found here (uint64 wrap of InStateLimit+Number; wrapped *Storage query) were repaired by fix: commits; their witnesses stay in the corpus.",
